@@ -271,6 +271,37 @@ def guard_decls(tier='quick'):
     return out
 
 
+DISPLAY_SPECS = ['{}', '{:>8}', '{:<5}', '{:^7}', '{:.2}', '{:+}', '{:08}', '{:#}', '{:*>6.1}', '{:-}']
+
+
+def h_display(d: Decl, props, spec, idx):
+    """C13: Display of the newtype hands the SAME formatter (width, precision, flags, fill, alignment)
+    to the inner value's Display exactly once and writes nothing else."""
+    S = concrete_self(d)
+    body = '        let p = Probe(kani::any());\n' + obtain(d, 'v', 'p')
+    body += ('        unsafe { PROBE_LOG = [0; 8]; }\n'
+             '        let mut w1 = CountWriter { n: 0, acc: 0 };\n'
+             '        let r1 = ::core::fmt::write(&mut w1, format_args!("%s", v));\n' % spec +
+             '        let log1 = unsafe { PROBE_LOG };\n'
+             '        unsafe { PROBE_LOG = [0; 8]; }\n'
+             '        let mut w2 = CountWriter { n: 0, acc: 0 };\n'
+             '        let r2 = ::core::fmt::write(&mut w2, format_args!("%s", p));\n' % spec +
+             '        let log2 = unsafe { PROBE_LOG };\n'
+             '        assert!(log1[0] == 1 && log2[0] == 1 && log1[1] == log2[1] && log1[2] == log2[2] && log1[3] == log2[3] && log1[4] == log2[4] && log1[5] == log2[5] && log1[6] == log2[6], "Display passes the caller\'s formatter unchanged to the inner value, once");\n'
+             '        assert!(r1.is_ok() == r2.is_ok() && w1.n == w2.n && w1.acc == w2.acc, "Display writes exactly what the inner value writes");\n')
+    return Harness(d, 'Display::fmt[%d: %s]' % (idx, spec), props, body, attrs='#[kani::unwind(12)]\n    ',
+                   bounded='one of %d enumerated format specs; the inner type is a probe whose Display records the Formatter it is handed; other inner types share the generated text' % len(DISPLAY_SPECS),
+                   clause='Display::fmt(&x, f) == Display::fmt(&x.inner, f) for the same Formatter f: same width/precision/flags/fill/alignment, one call, same output')
+
+
+def display_decls(tier='quick'):
+    out = [mk('disp_probe_nov', 'any', 'Probe', aux=['Probe'], derives=['Debug', 'Display'])]
+    for d in out:
+        d.verus = False
+        d.kani = True
+    return out
+
+
 def canonical_decls(tier='quick'):
     """numeric declarations with an IDEMPOTENT custom sanitizer (san_* = clamp / abs) and every value-creating derive"""
     out = []
@@ -1106,6 +1137,11 @@ def harnesses_for(prop, tier, seed):
                 hs.append(h_cmp(d, [prop]))
             if 'Hash' in d.derives:
                 hs.append(h_hash(d, [prop]))
+        dd = display_decls(tier)
+        for d in dd:
+            for i, spec in enumerate(DISPLAY_SPECS):
+                hs.append(h_display(d, [prop], spec, i))
+        decls = decls + dd
     return decls, hs, extra
 
 
